@@ -173,6 +173,8 @@ struct Actor {
     handshake_ok: Option<bool>,
     sent: u64,
     mapped: bool,
+    /// Script index of the teardown barrier (a Sync appended by the harness).
+    barrier_pc: Option<usize>,
 }
 
 #[derive(Debug, Default, Clone)]
